@@ -194,6 +194,8 @@ const LEN_PREFIX_LEN: i64 = 4;
 impl Writer {
     fn create(fd: OwnedFd) -> Result<Self, StorageError> {
         let file = File { fd: Arc::new(fd) };
+        #[cfg(all(aranya_verif, feature = "std"))]
+        super::verif::record(|| super::verif::IoEvent::Create { file: file.verif_id() });
         // Preallocate the control region plus a first data chunk so
         // we can start appending from FREE_START forward without
         // extending the file size on every append.
@@ -210,6 +212,8 @@ impl Writer {
 
     fn open(fd: OwnedFd) -> Result<Self, StorageError> {
         let file = File { fd: Arc::new(fd) };
+        #[cfg(all(aranya_verif, feature = "std"))]
+        super::verif::record(|| super::verif::IoEvent::Open { file: file.verif_id() });
 
         // Pick the latest valid root and remember which slot it came
         // from; the next commit writes to the other slot so this one
@@ -449,14 +453,28 @@ struct File {
 }
 
 impl File {
+    /// Identity of the open file in the verification I/O log.
+    #[cfg(all(aranya_verif, feature = "std"))]
+    fn verif_id(&self) -> usize {
+        Arc::as_ptr(&self.fd).addr()
+    }
+
     fn fallocate(&self, offset: i64, len: i64) -> Result<(), StorageError> {
         libc::fallocate(&self.fd, 0, offset, len)?;
+        #[cfg(all(aranya_verif, feature = "std"))]
+        super::verif::record(|| super::verif::IoEvent::Fallocate {
+            file: self.verif_id(),
+            offset,
+            len,
+        });
         // A full `fsync` (not `fdatasync`) so the size/extent metadata
         // dirtied by `fallocate` is durable before any data written into
         // the new region is committed; `fdatasync` may skip metadata not
         // needed to read back already-written data. This runs once per
         // `PREALLOC_CHUNK`, not per commit.
         libc::fsync(&self.fd)?;
+        #[cfg(all(aranya_verif, feature = "std"))]
+        super::verif::record(|| super::verif::IoEvent::Fsync { file: self.verif_id() });
         Ok(())
     }
 
@@ -482,6 +500,12 @@ impl File {
     }
 
     fn write_all(&self, mut offset: i64, mut buf: &[u8]) -> Result<(), StorageError> {
+        #[cfg(all(aranya_verif, feature = "std"))]
+        super::verif::record(|| super::verif::IoEvent::Write {
+            file: self.verif_id(),
+            offset,
+            bytes: buf.to_vec(),
+        });
         while !buf.is_empty() {
             match libc::pwrite(&self.fd, buf, offset) {
                 Ok(0) => {
@@ -507,6 +531,8 @@ impl File {
         // mapping), never timestamps. It avoids the extra inode-metadata journal
         // commit that `fsync` forces.
         libc::fdatasync(&self.fd)?;
+        #[cfg(all(aranya_verif, feature = "std"))]
+        super::verif::record(|| super::verif::IoEvent::Sync { file: self.verif_id() });
         Ok(())
     }
 
